@@ -38,6 +38,7 @@ func (fr *Frame) val(st *State, v ssa.Value) *Val {
 		// closure verified on its own: captured variable is an unknown cell
 		pt := ptrElem(vv.Type())
 		c := x.newCell(vv.Name(), pt, vv.Pos())
+		c.lazy = true
 		st.cells[c] = x.freshVal(vv.Name(), pt)
 		r := &Val{Ty: vv.Type(), L: []string{x.ptrTok()}, X: &PtrPath{Base: pbCell, Cell: c, BaseTy: pt, Ty: pt}}
 		if !isPointer(vv.Type()) {
